@@ -86,3 +86,36 @@ def sym_version(ctx, name, versions):
 
 def note_key(ctx, key):
     ctx.notes['key'] = key
+
+
+def crosshair_opinion(ctx, relpath, per_condition_timeout=120):
+    """Second engine (CrossHair 0.0.110, independent symbolic executor) on a
+    pure-int contract in /verif/xcheck.  Never the deciding step: a
+    counterexample makes this instance fail, 'Not confirmed' is recorded in
+    the notes and does not count either way."""
+    import os
+    import subprocess
+    import sys
+    if ctx.mode == 'conc':
+        return z3.BoolVal(True)
+    root = os.path.dirname(os.path.dirname(os.path.abspath(__file__)))
+    try:
+        out = subprocess.run(
+            [sys.executable, '-m', 'crosshair', 'check', '--report_all',
+             '--per_condition_timeout', str(per_condition_timeout),
+             os.path.join(root, relpath)],
+            capture_output=True, text=True, cwd=root,
+            timeout=per_condition_timeout * 3 + 60)
+        text = out.stdout + out.stderr
+    except Exception as e:     # tool missing / timeout: no opinion
+        ctx.notes['crosshair'] = 'no opinion: %r' % (e,)
+        return z3.BoolVal(True)
+    if 'Confirmed over all paths' in text:
+        ctx.notes['crosshair'] = 'Confirmed over all paths'
+        return z3.BoolVal(True)
+    if 'error:' in text and ('false when calling' in text.lower() or
+                             'raises' in text.lower()):
+        ctx.notes['crosshair'] = text.strip()[-400:]
+        return z3.BoolVal(False)
+    ctx.notes['crosshair'] = 'no opinion: ' + text.strip()[-200:]
+    return z3.BoolVal(True)
